@@ -42,7 +42,8 @@ class ASys(object):
         self.other = open_backend(self.backend, self.root, 'arch2', False)
         self.om = {}
         if self.fam != 'null':
-            for k, v in ((self.keys[2], self.values[0]), (self.keys[0], self.values[1])):
+            nk = cfg.get('neighbour', (self.keys[2], self.keys[0]))
+            for k, v in ((nk[0], self.values[0]), (nk[1], self.values[1])):
                 self.other[k] = v
                 self.om[k] = v
         self.a = open_backend(self.backend, self.root, 'arch', self.cached)
@@ -142,14 +143,10 @@ def key_pre(S, k):
     if k in S.m:
         return 'present'
     a = getattr(S.a, 'archive', S.a)
-    fn = getattr(a, '_fname', None)
-    if fn is not None and not S.cached:
-        try:
-            mine = fn(k)
-            if any(fn(q) == mine for q in S.m):
-                return 'alias-present'
-        except Exception:
-            pass
+    if getattr(a, '_fname', None) is not None and not S.cached:
+        mine = ref_dirname(k)
+        if mine is not None and any(ref_dirname(q) == mine for q in S.m):
+            return 'alias-present'
     return 'absent'
 
 
@@ -162,21 +159,34 @@ def _flat(x):
         yield x
 
 
+def ref_dirname(key):
+    """the directory name the *pinned* dir_archive gives a key (str(key) with '-' replaced by '_'; an md5 for a key that
+    is itself a pickle) -- kept here, independently of the implementation, so that only the recorded aliasing
+    ('a-b'/'a_b', 1/'1', (1,2)/'(1, 2)') is attributed to the known finding, not aliasing a change introduces"""
+    import hashlib
+    try:
+        ispickle = key.startswith(b'\x80') and key.endswith(b'.')
+    except Exception:
+        ispickle = False
+    if ispickle:
+        return None          # named by a digest: never aliases another key of the alphabets
+    return str(key).replace('-', '_')
+
+
 def _alias_involved(S, touched):
-    """does the operation touch a key whose storage name (dir_archive._fname) equals that of a
+    """does the operation touch a key whose directory name under the pinned naming scheme equals that of a
     *different* key that is present or touched by the same operation?"""
     a = getattr(S.a, 'archive', S.a)
-    fn = getattr(a, '_fname', None)
-    if fn is None or S.cached:
+    if getattr(a, '_fname', None) is None or S.cached:
         return False
-    try:
-        pool_keys = list(S.m.keys()) + list(touched)
-        for t in touched:
-            for q in pool_keys:
-                if (type(q) is not type(t) or q != t) and fn(q) == fn(t):
-                    return True
-    except Exception:
-        pass
+    pool_keys = list(S.m.keys()) + list(touched)
+    for t in touched:
+        rt = ref_dirname(t)
+        if rt is None:
+            continue
+        for q in pool_keys:
+            if (type(q) is not type(t) or q != t) and ref_dirname(q) == rt:
+                return True
     return False
 
 
@@ -202,6 +212,8 @@ def apply_op(S, op, prop='C03'):
     unenc = any(isinstance(x, archmc.Unencodable) or (isinstance(x, int) and not isinstance(x, bool) and abs(x) >= 2 ** 63) for x in _flat(op[1:]))
     # a key with a path separator in it is touched by, or present during, the operation
     pathsep = any(isinstance(q, str) and os.sep in q for q in list(touched) + list(S.m.keys()))
+    # a key longer than a file name may be (255 bytes) is touched by the operation
+    longkey = any(isinstance(q, str) and len(q) > 240 for q in touched)
 
     def bad(rule, detail, **kw):
         sig = dict(base)
@@ -257,7 +269,13 @@ def apply_op(S, op, prop='C03'):
     probs = compare_contents(c, S.m, 'contents after %s' % (_opr(op),))
     for p in probs:
         what = 'raises:%s' % type(c).__name__ if isinstance(c, BaseException) else ('keys' if 'keys' in p.split(':')[1][:6] else 'value')
-        bad('contents', p, what=what)
+        # which keys are missing: only ones this very operation was meant to store, or others too
+        lost = '-'
+        if what == 'keys' and not isinstance(c, BaseException):
+            missing = [q for q in S.m if not any(type(q) is type(r) and q == r for r in c)]
+            extra_keys = [r for r in c if not any(type(q) is type(r) and q == r for q in S.m)]
+            lost = 'touched-only' if missing and not extra_keys and all(any(type(q) is type(t) and q == t for t in touched) for q in missing) else 'other'
+        bad('contents', p, what=what, lost=lost, longkey=longkey)
     if not probs:
         try:
             n = len(S.a)
@@ -489,6 +507,8 @@ def c03_configs(tier):
         valsets = VALUE_SETS[enc]
         if backend in archmc.RELNAME or backend == 'file-source-bare':
             keysets, valsets = keysets[1:2], valsets[:1]
+        elif backend in ('dir-compressed-memmode', 'dir-json-compressed', 'dir-json-memmode'):
+            keysets, valsets = keysets[1:2], valsets[:1]
         elif tier == 'quick':
             if backend in ('dir-memmode', 'sql-memory'):
                 keysets, valsets = keysets[:1], valsets[:1]
@@ -503,6 +523,9 @@ def c03_configs(tier):
                 cfgs.append({'backend': backend, 'keys': ks, 'values': vs, 'cached': False})
         if tier == 'thorough' and fam == 'dir' and enc == 'pickle':
             cfgs.append({'backend': backend, 'keys': KEY_SETS['hostile'][0], 'values': valsets[0], 'cached': False})
+        if backend in ('dir', 'file', 'sql', 'dict') or (tier == 'thorough' and fam in ('dir', 'file')):
+            # long keys with a common head (a stringmap key for a long string argument)
+            cfgs.append({'backend': backend, 'keys': KEY_SETS['long'][0], 'values': valsets[0], 'cached': False, 'neighbour': ('c', 'd')})
         cfgs.append({'backend': backend, 'keys': keysets[0], 'values': valsets[0], 'cached': True})
         if fam in archmc.PERSISTENT and backend not in archmc.RELNAME:
             cfgs.append({'backend': backend, 'keys': keysets[0], 'values': valsets[0], 'cached': False, 'narrow': True})
